@@ -348,6 +348,16 @@ def hyp_cases(draw, tier):
     case = {"spec": spec, "verdicts": verdicts, "forms": forms, "start": start}
     if draw(st.sampled_from([0, 0, 1])):
         case["typed"] = True  # kinds are not compared (known finding D10a), the typed code paths are exercised
+
+        def kinds_(nodes):  # siblings of different kinds: position among all siblings != position among those of one kind
+            for nd in nodes:
+                o = dict(nd[2]) if len(nd) > 2 and nd[2] else {}
+                o["kind"] = draw(st.sampled_from(["child", "x", "y"]))
+                del nd[2:]
+                nd.append(o)
+                kinds_(nd[1])
+
+        kinds_(spec)
     return case
 
 
